@@ -30,7 +30,8 @@ from ..engines.refpeer import CIPHERS, KEXES, MACS, RefKey, RefPeer
 
 PROPERTY_ID = 'C02'
 LEVEL = 'exploration'
-RULE = ('ref: Hypothesis draws (asyncssh role, kex, cipher, MAC, compression, '
+RULE = ('ref: Hypothesis draws (asyncssh role, kex, cipher, MAC, compression '
+        '- optionally different for the two directions, RFC 4253 7.1 -, '
         'strict-kex, write sizes around block/packet boundaries in both '
         'directions, chunking of the byte stream); an independent RFC 4253 '
         'peer (refpeer, calibrated against OpenSSH) must decode every packet '
@@ -101,19 +102,44 @@ def run_ref(case) -> CaseResult:
     role = case['role']            # role of asyncssh
     kex, enc, mac, comp = (case['kex'].encode(), case['enc'].encode(),
                            case['mac'].encode(), case['comp'].encode())
+    # RFC 4253 7.1 negotiates each direction separately: the peer may
+    # propose different algorithms for client->server and server->client
+    # (asyncssh itself never does, so only refpeer reaches this)
+    enc_sc = (case.get('enc_sc') or case['enc']).encode()
+    mac_sc = (case.get('mac_sc') or case['mac']).encode()
+    comp_sc = (case.get('comp_sc') or case['comp']).encode()
     chunks = case['chunks']
     chunker = itertools.cycle(chunks) if chunks else None
     store: Dict[Any, List[Any]] = {}
-    opts = {'kex_algs': [case['kex']], 'encryption_algs': [case['enc']],
-            'mac_algs': [case['mac']], 'compression_algs': [case['comp']]}
+
+    def both(a: bytes, b: bytes) -> List[str]:
+        return [a.decode()] + ([b.decode()] if b != a else [])
+
+    opts = {'kex_algs': [case['kex']], 'encryption_algs': both(enc, enc_sc),
+            'mac_algs': both(mac, mac_sc),
+            'compression_algs': both(comp, comp_sc)}
     labels = {'role:' + role, 'enc:' + case['enc'], 'kex:' + case['kex'],
               'comp:' + case['comp'], chunk_class(chunks)}
 
     if CIPHERS[enc][3] not in ('gcm', 'chacha'):
         labels.add('mac:' + case['mac'])
 
+    def hdr1(e: bytes, m: bytes) -> bool:
+        return CIPHERS[e][3] in ('gcm', 'chacha') or MACS[m][3]
+
+    if (enc, mac, comp) != (enc_sc, mac_sc, comp_sc):
+        labels.add('directions-differ')
+        labels.add('enc:' + enc_sc.decode())
+
+        if hdr1(enc, mac) != hdr1(enc_sc, mac_sc):
+            labels.add('directions-differ:length-field')
+
+        if CIPHERS[enc][2] != CIPHERS[enc_sc][2]:
+            labels.add('directions-differ:blocksize')
+
     ref = RefPeer('client' if role == 'server' else 'server', kex=[kex],
-                  enc_cs=[enc], mac_cs=[mac], comp_cs=[comp], comp_sc=[comp],
+                  enc_cs=[enc], enc_sc=[enc_sc], mac_cs=[mac],
+                  mac_sc=[mac_sc], comp_cs=[comp], comp_sc=[comp_sc],
                   strict=case['strict'],
                   host_key=ref_hostkey(case['hostkey'])
                   if role == 'client' else None)
@@ -237,6 +263,7 @@ def run_ref(case) -> CaseResult:
                             'a packet' % len(ref.inbuf), 'decode:trailing')
 
         key = [role, case['kex'], case['enc'], case['mac'], case['comp'],
+               enc_sc.decode(), mac_sc.decode(), comp_sc.decode(),
                chunk_class(chunks), sorted({min(n, 41) if n < 64 else
                                             n.bit_length() + 100
                                             for n in case['writes']})]
@@ -266,6 +293,13 @@ def ref_strategy(tier: str):
         'enc': pick(sorted(c.decode() for c in CIPHERS)),
         'mac': pick(sorted(m.decode() for m in MACS)),
         'comp': pick(['none', 'none', 'zlib@openssh.com', 'zlib']),
+        # None = same algorithm in both directions
+        'enc_sc': st.one_of(st.none(),
+                            pick(sorted(c.decode() for c in CIPHERS))),
+        'mac_sc': st.one_of(st.none(),
+                            pick(sorted(m.decode() for m in MACS))),
+        'comp_sc': st.one_of(st.none(), st.none(),
+                             pick(['none', 'zlib@openssh.com', 'zlib'])),
         'strict': st.booleans(),
         'hostkey': pick(['ed25519', 'ecdsa', 'rsa']),
         'writes': st.lists(size, min_size=1, max_size=6),
@@ -500,7 +534,9 @@ FAMILIES = [
            budget={'quick': 2400, 'thorough': 30000},
            required={'all': ['role:server', 'role:client', 'chunk-1byte',
                              'chunk-coalesce', 'whole-records',
-                             'write>maxpkt'] +
+                             'write>maxpkt', 'directions-differ',
+                             'directions-differ:length-field',
+                             'directions-differ:blocksize'] +
                      ['enc:' + c.decode() for c in CIPHERS]},
            case_timeout=120),
     Family('pair', run_pair, strategy=pair_strategy,
